@@ -210,14 +210,14 @@ theorem RelS_panic {a b : Mach} (h : E0 a b) (s : String) : RelS (a, .panic s) (
 macro "e0_chain" hp:ident h:ident : tactic =>
   `(tactic| (repeat (first
       | exact $h
-      | apply RelS_ok | apply RelS_panic | apply E0_emitTag $hp | apply E0_consumeCharRef
+      | with_reducible apply RelS_ok | with_reducible apply RelS_panic | with_reducible apply E0_emitTag $hp | with_reducible apply E0_consumeCharRef
       | exact E0_selfClosing $h
-      | apply E0_to | apply E0_reconsumeTo | apply E0_discardTag | apply E0_createTag | apply E0_pushTag
-      | apply E0_pushTemp | apply E0_clearTemp | apply E0_pushName | apply E0_pushValue | apply E0_appendValue
-      | apply E0_pushComment | apply E0_appendComment | apply E0_clearComment | apply E0_createDoctype
-      | apply E0_pushDoctypeName | apply E0_pushDoctypeId | apply E0_clearDoctypeId | apply E0_forceQuirks
-      | apply E0_emitChar | apply E0_emitChars | apply E0_badChar | apply E0_badEof | apply E0_emitTempBuf
-      | apply E0_emitComment | apply E0_emitDoctype | apply E0_createAttr | apply E0_finishAttribute | apply E0_emit
+      | with_reducible apply E0_to | with_reducible apply E0_reconsumeTo | with_reducible apply E0_discardTag | with_reducible apply E0_createTag | with_reducible apply E0_pushTag
+      | with_reducible apply E0_pushTemp | with_reducible apply E0_clearTemp | with_reducible apply E0_pushName | with_reducible apply E0_pushValue | with_reducible apply E0_appendValue
+      | with_reducible apply E0_pushComment | with_reducible apply E0_appendComment | with_reducible apply E0_clearComment | with_reducible apply E0_createDoctype
+      | with_reducible apply E0_pushDoctypeName | with_reducible apply E0_pushDoctypeId | with_reducible apply E0_clearDoctypeId | with_reducible apply E0_forceQuirks
+      | with_reducible apply E0_emitChar | with_reducible apply E0_emitChars | with_reducible apply E0_badChar | with_reducible apply E0_badEof | with_reducible apply E0_emitTempBuf
+      | with_reducible apply E0_emitComment | with_reducible apply E0_emitDoctype | with_reducible apply E0_createAttr | with_reducible apply E0_finishAttribute | with_reducible apply E0_emit
       | (e0_same $h))))
 
 /-! ### the transition tables -/
